@@ -58,6 +58,35 @@ class TestRaised(Exception):
     """default exception class raised by the scripted test"""
 
 
+class no_tty:
+    """during a run the standard streams are /dev/null, as under cron, CI or a pipe - and the same whoever starts the
+    check (a terminal would otherwise make terminal-size queries and the like succeed only on a developer's screen)"""
+
+    def __enter__(self):
+        sys.stdout.flush()
+        sys.stderr.flush()
+        self.saved = [os.dup(fd) for fd in (0, 1, 2)]
+        self.null_r = os.open(os.devnull, os.O_RDONLY)
+        self.null_w = os.open(os.devnull, os.O_WRONLY)
+        os.dup2(self.null_r, 0)
+        os.dup2(self.null_w, 1)
+        os.dup2(self.null_w, 2)
+        return self
+
+    def __exit__(self, *exc):
+        try:
+            sys.stdout.flush()
+            sys.stderr.flush()
+        except Exception:  # pylint: disable=broad-except
+            pass
+        for fd, keep in zip((0, 1, 2), self.saved):
+            os.dup2(keep, fd)
+            os.close(keep)
+        os.close(self.null_r)
+        os.close(self.null_w)
+        return False
+
+
 class Refused(Exception):
     """the strategy's own option parser refused the options (start-up validation)"""
 
@@ -84,6 +113,7 @@ class Scripted:
         self.w_mark = 0
         self.timeline = None
         self.args_seen = []
+        self.stale = []     # tests that found something else on disk than the candidate proposed for them
 
     def init(self, args):
         self.events.append("I")
@@ -96,10 +126,14 @@ class Scripted:
         if self.cap is not None and self.k > self.cap:
             raise CapHit()
         data = Path(self.path).read_bytes()
+        exp = getattr(self, "expected", None)
+        if exp is not None and data != exp:
+            self.stale.append((self.k, len(data), len(exp)))
+        self.expected = None
         ans = self.verdict(self.k, data)
         prefix = os.path.abspath(prefix)
         pnum = prefix[len(self.tmp) + 1:] if prefix.startswith(self.tmp + os.sep) else "?" + prefix
-        self.events.append(f"T {self.k} {pnum} {hx(data)} {ans}")
+        self.events.append(f"T {self.k} {pnum} {('#%d' % len(data)) if getattr(self, 'light', False) else hx(data)} {ans}")
         self.seen.append((self.k, data, ans))
         if self.timeline is not None:
             self.timeline.append(("T", self.k))
@@ -231,10 +265,12 @@ class Run:
     temp = ()
     writes = 0
     fault_last = False
+    stale = ()
 
 
 def impl_run(strategy, cfg, tc, file0, verdict, clock=(), exc_class=TestRaised, atom="line",
-             cap=5000, load=False, ext=".txt", watchdog=60.0, auto_tmp=False):
+             cap=5000, load=False, ext=".txt", watchdog=30.0, auto_tmp=False, via_link=None, prefill=None,
+             light=None):
     """tc = (before, parts, reducible, after) placed directly into a testcase object, or (when
     load=True) ignored in favour of Testcase.load(file0).  verdict: str or callable(k, data)."""
     import lithium.strategies as st
@@ -252,7 +288,20 @@ def impl_run(strategy, cfg, tc, file0, verdict, clock=(), exc_class=TestRaised, 
         tmp = os.path.join(work, "tmp1" if auto_tmp else "tmp")
         if not auto_tmp:
             os.mkdir(tmp)
-        Path(path).write_bytes(file0)
+        real_path = path
+        if via_link:
+            # the path given to Lithium is a symbolic / hard link; the test (and the final comparison) read the file
+            # under its real name
+            os.mkdir(os.path.join(work, "real"))
+            real_path = os.path.join(work, "real", "t" + ext)
+            Path(real_path).write_bytes(file0)
+            (os.symlink if via_link == "sym" else os.link)(real_path, path)
+        else:
+            Path(path).write_bytes(file0)
+        for name_, bytes_ in (prefill or {}).items():      # leftovers of an earlier session in a re-used --tempdir
+            Path(os.path.join(tmp, name_)).write_bytes(bytes_)
+        if light is None:
+            light = len(file0) > 100000
         atom_name = atom.split(":")[0]
         testcase = getattr(tcs, ATOMS[atom_name])()
         if ":" in atom:  # "symbol:<hex cut-before>:<hex cut-after>"
@@ -267,7 +316,8 @@ def impl_run(strategy, cfg, tc, file0, verdict, clock=(), exc_class=TestRaised, 
         res.loaded = (testcase.before, list(testcase.parts), list(testcase.reducible),
                       testcase.after)
         events = []
-        script = Scripted(path, tmp, verdict, events, exc_class, cap)
+        script = Scripted(real_path, tmp, verdict, events, exc_class, cap)
+        script.light = light
         lith = Lithium()
         lith.strategy = make_strategy(strategy, cfg)
         lith.testcase = testcase
@@ -293,6 +343,8 @@ def impl_run(strategy, cfg, tc, file0, verdict, clock=(), exc_class=TestRaised, 
                 script.w_mark = nw
             steps.append(("P", (tcase.before, list(tcase.parts), list(tcase.reducible),
                                 tcase.after)))
+            # what the next test must find on disk: this candidate (C01: "the content the file had during the test")
+            script.expected = tcase.before + b"".join(tcase.parts) + tcase.after
             return orig_try(self, tcase, description)
 
         st.ReductionIterator.try_testcase = try_wrapper
@@ -306,7 +358,8 @@ def impl_run(strategy, cfg, tc, file0, verdict, clock=(), exc_class=TestRaised, 
             try:
                 if auto_tmp:
                     os.chdir(work)
-                rc = lith.run()
+                with no_tty():
+                    rc = lith.run()
             finally:
                 signal.setitimer(signal.ITIMER_REAL, 0)
                 signal.signal(signal.SIGALRM, old_handler)
@@ -336,7 +389,7 @@ def impl_run(strategy, cfg, tc, file0, verdict, clock=(), exc_class=TestRaised, 
         res.timeline = timeline
         li = lith.last_interesting
         res.last = None if li is None else (li.before, list(li.parts), list(li.reducible), li.after)
-        final = Path(path).read_bytes() if os.path.exists(path) else b"<deleted>"
+        final = Path(real_path).read_bytes() if os.path.exists(real_path) else b"<deleted>"
         temp = []
         for root, _, files in os.walk(tmp):
             for f in files:
@@ -350,13 +403,19 @@ def impl_run(strategy, cfg, tc, file0, verdict, clock=(), exc_class=TestRaised, 
         res.tests = script.k
         res.seen = script.seen
         res.args_seen = script.args_seen
+        res.stale = script.stale
         res.events = events
         res.writes = events.count("W")
         res.test_count, res.tfc, res.total = lith.test_count, lith.temp_file_count, lith.test_total
         res.clock_reads = clk.i
-        res.trace = (";".join(events) + f" | file={hx(final)} tests={lith.test_count} "
-                     f"tfc={lith.temp_file_count} total={lith.test_total} temp="
-                     + ",".join(f"{n}={hx(b)}" for n, b, _ in temp) + " " + tail)
+        if light:      # big inputs: sizes instead of contents in the textual trace (no model run is compared with it)
+            res.trace = (";".join(events) + f" | file=#{len(final)} tests={lith.test_count} "
+                         f"tfc={lith.temp_file_count} total={lith.test_total} temp="
+                         + ",".join(f"{n}=#{len(b)}" for n, b, _ in temp) + " " + tail)
+        else:
+            res.trace = (";".join(events) + f" | file={hx(final)} tests={lith.test_count} "
+                         f"tfc={lith.temp_file_count} total={lith.test_total} temp="
+                         + ",".join(f"{n}={hx(b)}" for n, b, _ in temp) + " " + tail)
         return res
     finally:
         shutil.rmtree(work, ignore_errors=True)
@@ -380,7 +439,12 @@ def enc_steps(steps):
 
 def model_line(strategy, cfg, tc, file0, verdicts, clock=(), fuel=200000, extra="", steps=None):
     """Case line for coq/Extract/driver: op `run`."""
-    clk = ",".join(str(c) for c in clock) if clock else "-"
+    # the model's clock is integer-valued: quarter-second readings are passed to it in units of 1/4 s, the limit
+    # alongside (the deadline logic is linear in both)
+    scale = 4 if any(c != int(c) for c in clock) else 1
+    clk = ",".join(str(int(c * scale)) for c in clock) if clock else "-"
+    if scale != 1 and cfg.get("limit") is not None:
+        cfg = dict(cfg, limit=cfg["limit"] * scale)
     if steps is not None:
         return f"run replay {enc_steps(steps)} {enc_tc(tc)} {hx(file0)} {verdicts or '-'} {fuel}"
     if strategy == "check-only":
@@ -409,7 +473,7 @@ def dfs_verdicts(run_fn, max_runs=100000, first=("Y",), alphabet="YN"):
             stack.append(prefix + "N" * (i - len(prefix)) + "Y")
 
 
-def impl_session(steps, exc_class=TestRaised, ext=".txt", watchdog=60.0):
+def impl_session(steps, exc_class=TestRaised, ext=".txt", watchdog=30.0):
     """Several consecutive runs on ONE Lithium object (and, where the atom type / strategy name repeats,
     the same testcase / strategy objects) with one temp dir - the way a library user or a second pass
     in the same process re-uses them.  steps: dicts with strategy, cfg, atom, file0, verdict, and
@@ -488,7 +552,8 @@ def impl_session(steps, exc_class=TestRaised, ext=".txt", watchdog=60.0):
             signal.setitimer(signal.ITIMER_REAL, watchdog)
             try:
                 try:
-                    res.rc = lith.run()
+                    with no_tty():
+                        res.rc = lith.run()
                 finally:
                     signal.setitimer(signal.ITIMER_REAL, 0)
                     signal.signal(signal.SIGALRM, old_handler)
